@@ -8,7 +8,7 @@
   can make a `Write` or `Close` of the packet machine fail is the packet
   function refusing a packet NUMBER (`ErrPacketOverflow`).  The whole run is
   therefore described UNCONDITIONALLY: what reaches the writer is the header
-  packet followed by `okBytes` of the all-at-once chunk plan of the
+  packet followed by `planOkBytes` of the all-at-once chunk plan of the
   concatenated plaintext — the packets of the plan up to the first refused
   number —, whatever the split into `Write`s; and when the all-at-once form
   exists (`planBytes … = .ok B`) every call reports success and the bytes are
@@ -32,15 +32,15 @@ theorem wr_good : GoodWriter Wr.write (fun w => w.sink = []) := by
   simp [Wr.write, h]
 
 /-- the bytes of the packets of a plan up to the first refused packet number -/
-def okBytes (pkt : Nat → Bytes → Bool → Except Err Bytes) : List (Bytes × Bool) → Nat → Bytes
+def planOkBytes (pkt : Nat → Bytes → Bool → Except Err Bytes) : List (Bytes × Bool) → Nat → Bytes
   | [], _ => []
   | (c, f) :: rest, i =>
     match pkt i c f with
-    | .ok b => b ++ okBytes pkt rest (i + 1)
+    | .ok b => b ++ planOkBytes pkt rest (i + 1)
     | .error _ => []
 
-theorem okBytes_append (pkt : Nat → Bytes → Bool → Except Err Bytes) : ∀ (a b : List (Bytes × Bool)) (i : Nat) (A : Bytes),
-    planBytes pkt a i = .ok A → okBytes pkt (a ++ b) i = A ++ okBytes pkt b (i + a.length) := by
+theorem planOkBytes_append (pkt : Nat → Bytes → Bool → Except Err Bytes) : ∀ (a b : List (Bytes × Bool)) (i : Nat) (A : Bytes),
+    planBytes pkt a i = .ok A → planOkBytes pkt (a ++ b) i = A ++ planOkBytes pkt b (i + a.length) := by
   intro a
   induction a with
   | nil => intro b i A h; simp [planBytes] at h; simp [← h]
@@ -56,27 +56,27 @@ theorem okBytes_append (pkt : Nat → Bytes → Bool → Except Err Bytes) : ∀
       | ok R =>
         simp only [hp, hr] at h
         injection h with h
-        simp only [List.cons_append, okBytes, hp, ih b (i + 1) R hr, List.length_cons]
+        simp only [List.cons_append, planOkBytes, hp, ih b (i + 1) R hr, List.length_cons]
         rw [← h, List.append_assoc]
         congr 3
         omega
 
-/-- when the all-at-once form exists, `okBytes` is it -/
-theorem okBytes_of_ok (pkt : Nat → Bytes → Bool → Except Err Bytes) (pl : List (Bytes × Bool)) (i : Nat) (B : Bytes)
-    (h : planBytes pkt pl i = .ok B) : okBytes pkt pl i = B := by
-  have := okBytes_append pkt pl [] i B h
-  simpa [okBytes] using this
+/-- when the all-at-once form exists, `planOkBytes` is it -/
+theorem planOkBytes_of_ok (pkt : Nat → Bytes → Bool → Except Err Bytes) (pl : List (Bytes × Bool)) (i : Nat) (B : Bytes)
+    (h : planBytes pkt pl i = .ok B) : planOkBytes pkt pl i = B := by
+  have := planOkBytes_append pkt pl [] i B h
+  simpa [planOkBytes] using this
 
-/-- a refused packet number right after the packets `a`: the plan's `okBytes`
+/-- a refused packet number right after the packets `a`: the plan's `planOkBytes`
     are the bytes of `a`, and the all-at-once form does not exist -/
 theorem stuck_of_refused (pkt : Nat → Bytes → Bool → Except Err Bytes) (a plan : List (Bytes × Bool)) (A : Bytes)
     (c : Bytes) (f : Bool) (e : Err) (hA : planBytes pkt a 0 = .ok A) (hr : pkt a.length c f = .error e)
     (hpre : a ++ [(c, f)] <+: plan) :
-    okBytes pkt plan 0 = A ∧ ∀ B, planBytes pkt plan 0 ≠ .ok B := by
+    planOkBytes pkt plan 0 = A ∧ ∀ B, planBytes pkt plan 0 ≠ .ok B := by
   obtain ⟨r, rfl⟩ := hpre
   constructor
-  · rw [List.append_assoc, okBytes_append pkt a _ 0 A hA]
-    simp [okBytes, hr]
+  · rw [List.append_assoc, planOkBytes_append pkt a _ 0 A hA]
+    simp [planOkBytes, hr]
   · intro B hB
     rw [List.append_assoc] at hB
     obtain ⟨_, B', _, h2, _⟩ := (planBytes_append pkt a _ 0 B).1 hB
@@ -143,9 +143,9 @@ def AliveG (cfg : Cfg) (hdr T : Bytes) (st : PSt ω) : Prop :=
 
 /-- a packet number was refused: the stream is dead, and for EVERY continuation
     `X` of the plaintext accepted so far what is at the writer is the header and
-    the `okBytes` of the all-at-once plan, which does not exist as a whole -/
+    the `planOkBytes` of the all-at-once plan, which does not exist as a whole -/
 def Stuck (cfg : Cfg) (v : Version) (hdr T : Bytes) (st : PSt ω) : Prop :=
-  Dead cfg st ∧ ∀ X, obs st.codec.w = hdr ++ okBytes cfg.pkt (Encrypt.chunkPlan v cfg.bs (T ++ X)) 0 ∧
+  Dead cfg st ∧ ∀ X, obs st.codec.w = hdr ++ planOkBytes cfg.pkt (Encrypt.chunkPlan v cfg.bs (T ++ X)) 0 ∧
     ∀ B, planBytes cfg.pkt (Encrypt.chunkPlan v cfg.bs (T ++ X)) 0 ≠ .ok B
 
 theorem good_writeLoop (hw : ObsWriter wr obs) (hg : GoodWriter wr good) (cfg : Cfg)
@@ -194,7 +194,7 @@ theorem good_writeLoop (hw : ObsWriter wr obs) (hg : GoodWriter wr good) (cfg : 
           simp only
           have hdead : Dead cfg st' := by
             right; intro c f; rw [h3]; exact hif _ _ _ _ hpk c f
-          have hst : ∀ X, obs st'.codec.w = hdr ++ okBytes cfg.pkt (Encrypt.chunkPlan v cfg.bs (T ++ X)) 0 ∧
+          have hst : ∀ X, obs st'.codec.w = hdr ++ planOkBytes cfg.pkt (Encrypt.chunkPlan v cfg.bs (T ++ X)) 0 ∧
               ∀ B, planBytes cfg.pkt (Encrypt.chunkPlan v cfg.bs (T ++ X)) 0 ≠ .ok B := by
             intro X
             have hpl : (E ++ [st.buf.take cfg.bs]).map (·, false) <+: Encrypt.chunkPlan v cfg.bs (T ++ X) := by
@@ -326,14 +326,14 @@ theorem good_emit (hw : ObsWriter wr obs) (hg : GoodWriter wr good) (cfg : Cfg)
 
 /-- `Close` from a healthy state over a good writer: success with exactly the
     all-at-once output at the writer, or a refused packet number — then the
-    all-at-once form does not exist and its `okBytes` are at the writer -/
+    all-at-once form does not exist and its `planOkBytes` are at the writer -/
 theorem good_close (hw : ObsWriter wr obs) (hg : GoodWriter wr good) (cfg : Cfg)
     (hp : ∀ b, (cfg.pieces b).flatten = b) (hb : 0 < cfg.bs) (v : Version) (hv : cfg.v1shape = (v == v1))
     (hdr T : Bytes) (st : PSt ω) (h : AliveG obs good cfg hdr T st) :
     ((st.close wr cfg).1 = none ∧ ∃ B, planBytes cfg.pkt (Encrypt.chunkPlan v cfg.bs T) 0 = .ok B ∧
         obs (st.close wr cfg).2.codec.w = hdr ++ B) ∨
     ((st.close wr cfg).1 ≠ none ∧
-        obs (st.close wr cfg).2.codec.w = hdr ++ okBytes cfg.pkt (Encrypt.chunkPlan v cfg.bs T) 0 ∧
+        obs (st.close wr cfg).2.codec.w = hdr ++ planOkBytes cfg.pkt (Encrypt.chunkPlan v cfg.bs T) 0 ∧
         ∀ B, planBytes cfg.pkt (Encrypt.chunkPlan v cfg.bs T) 0 ≠ .ok B) := by
   obtain ⟨E, ha, hgd, hbound, hne⟩ := h
   have hplan := settled_plan v cfg.bs hb E st.buf ha.full hbound hne
@@ -443,7 +443,7 @@ theorem run_good (hw : ObsWriter wr obs) (hg : GoodWriter wr good) (cfg : Cfg)
     (hv : cfg.v1shape = (v == v1)) (w0 : ω) (hw0 : good w0) (hbytes : Bytes) (ws : List Bytes) :
     (PSt.init wr cfg.pieces w0 hbytes).1 = true ∧
     obs ((PSt.writes wr cfg (PSt.init wr cfg.pieces w0 hbytes).2 ws).2.close wr cfg).2.codec.w =
-      obs w0 ++ headerPacket hbytes ++ okBytes cfg.pkt (Encrypt.chunkPlan v cfg.bs ws.flatten) 0 ∧
+      obs w0 ++ headerPacket hbytes ++ planOkBytes cfg.pkt (Encrypt.chunkPlan v cfg.bs ws.flatten) 0 ∧
     (∀ B, planBytes cfg.pkt (Encrypt.chunkPlan v cfg.bs ws.flatten) 0 = .ok B →
       (PSt.writes wr cfg (PSt.init wr cfg.pieces w0 hbytes).2 ws).1 = ws.map (fun p => (p.length, none)) ∧
       ((PSt.writes wr cfg (PSt.init wr cfg.pieces w0 hbytes).2 ws).2.close wr cfg).1 = none) := by
@@ -452,7 +452,7 @@ theorem run_good (hw : ObsWriter wr obs) (hg : GoodWriter wr good) (cfg : Cfg)
   rcases good_writes wr obs good hw hg cfg hp hb hif v _ ws [] _ ha with ⟨hr, ha'⟩ | ⟨_, hs⟩
   · rw [List.nil_append] at ha'
     rcases good_close wr obs good hw hg cfg hp hb v hv _ _ _ ha' with ⟨hc, B, hB, ho⟩ | ⟨_, ho, hno⟩
-    · exact ⟨by rw [ho, okBytes_of_ok cfg.pkt _ 0 B hB], fun _ _ => ⟨hr, hc⟩⟩
+    · exact ⟨by rw [ho, planOkBytes_of_ok cfg.pkt _ 0 B hB], fun _ _ => ⟨hr, hc⟩⟩
     · exact ⟨ho, fun B hB => absurd hB (hno B)⟩
   · rw [List.nil_append] at hs
     obtain ⟨hd, hall⟩ := hs
@@ -517,7 +517,7 @@ theorem run_good_oneShot (hw : ObsWriter wr obs) (hg : GoodWriter wr good) (cfg 
   obtain ⟨hi, ho, hall⟩ := run_good wr obs good hw hg cfg hp hb hif v hv w0 hw0 hbytes ws
   obtain ⟨h1, h2⟩ := hall B hB
   refine ⟨hi, h1, h2, ?_⟩
-  rw [ho, okBytes_of_ok cfg.pkt _ 0 B hB, List.append_assoc]
+  rw [ho, planOkBytes_of_ok cfg.pkt _ 0 B hB, List.append_assoc]
 
 end good
 
